@@ -75,6 +75,16 @@ func (r *Rcv) GenPtr(n int) (_ «Iter[int]») {
 	return
 }
 
+// delegation to a parameter whose declared type is an alias of the iterator type
+func GenViaAlias(it IntIt, k int) «Iter[int]» {
+	«YieldFrom»(it)
+	for v := range «RANGE(it)» { // exhausted by now
+		«Yield»(v)
+	}
+	«Yield»(k)
+	return nil
+}
+
 // a package-level iterator variable that no statement of THIS file writes
 var pkgSrc «Iter[int]»
 
@@ -92,6 +102,7 @@ func GenOverPkgVar(k int) «Iter[int]» {
 		"func (r Rcv) Gen(n int) «Iter[int]» {\n", "func (r Rcv) Gen(n int) «Iter[int]» {\n\treturn refco.Go(func(ʏ *refco.Y[int]) {\n",
 		"func (r *Rcv) GenPtr(n int) (_ «Iter[int]») {\n", "func (r *Rcv) GenPtr(n int) «Iter[int]» {\n\treturn refco.Go(func(ʏ *refco.Y[int]) {\n",
 		"func GenOverPkgVar(k int) «Iter[int]» {\n", "func GenOverPkgVar(k int) «Iter[int]» {\n\treturn refco.Go(func(ʏ *refco.Y[int]) {\n",
+		"func GenViaAlias(it IntIt, k int) «Iter[int]» {\n", "func GenViaAlias(it IntIt, k int) «Iter[int]» {\n\treturn refco.Go(func(ʏ *refco.Y[int]) {\n",
 		"\treturn nil\n}\n", "\treturn\n\t})\n}\n",
 		"\treturn\n}\n", "\treturn\n\t})\n}\n",
 		"\t\t\treturn nil\n", "\t\t\treturn\n",
@@ -201,13 +212,46 @@ func UseNested(a, b int) int {
 	return vrt.V(%[9]d, total)
 }
 `, k1, k3, k2-1, tag(), brk, tag(), tag(), k1-1, tag(), tag(), tag())
-	src = []string{common, genSrc, users}
-	ref = []string{common, genRef, users}
+	// an alias of the iterator type (a types.Alias node for a tool built in a module that
+	// says go >= 1.23) as variable, field and parameter type, ranged and pulled
+	alias := fmt.Sprintf(`type IntIt = «Iter[int]»
+
+type aliasBox struct{ it IntIt }
+
+func drainAlias(it IntIt, stop int) int {
+	s := 0
+	for v := range «RANGE(it)» {
+		s = s*7 + v
+		if v == stop {
+			break
+		}
+	}
+	return s
+}
+
+func UseAlias(a, b int) int {
+	var g IntIt = (Rcv{a}).Gen(3)
+	bx := aliasBox{g}
+	s := drainAlias(bx.it, a+b%%3)
+	vrt.E(%d, s)
+	for v := range «RANGE(bx.it)» {
+		s = s*7 + v
+	}
+	var rest IntIt = GenViaAlias(GenT([]int{a, b, a + b}, 2), b)
+	for rest.MoveNext() {
+		s = s*7 + rest.Current()
+	}
+	return vrt.V(%d, s)
+}
+`, tag(), tag())
+	src = []string{common, genSrc, users, alias}
+	ref = []string{common, genRef, users, alias}
 	small := []int{-1, 0, 1, 2, 3, 5}
 	funcs = []*Func{
 		{Name: "UseTypes", Params: []string{"a", "b"}, Args: [][]int{small, small}, Feat: []string{"iterator_in_struct_map_slice_closure_typearg", "generic_generator", "method_generator", "mixed_pull_and_range_on_one_iterator"}},
 		{Name: "UseRebind", Params: []string{"a", "b"}, Args: [][]int{small, small}, Feat: []string{"pull_helper_closures_over_rebound_iterator_variable"}},
 		{Name: "UseNested", Params: []string{"a", "b"}, Args: [][]int{small, small}, Feat: []string{"nested_consumer_ranges"}},
+		{Name: "UseAlias", Params: []string{"a", "b"}, Args: [][]int{small, small}, Feat: []string{"alias_of_the_iterator_type_as_variable_field_and_parameter_type"}},
 		{Name: "UseAssignTargets", Params: []string{"a", "b"}, Args: [][]int{small, small}, Feat: []string{"consumer_range_assign_form_onto_index_field_and_pointer_operands"}},
 	}
 	// a plain file of the package (it does not mention the API): the writes to pkgSrc live here
